@@ -47,6 +47,15 @@ def table_cases(rng, tier):
     for i in range(n):
         c = rvgen.sim_case(rng, "five" if i % 2 else "single", trace=0, run=rng.choice([0, 3, 40]), dprob=0.4, iprob=0.0, suite="rv-tables")
         c.lines += ["sim.arch", "sim.regtable", "sim.memtable"]
+        if i % 3 == 0:
+            # the SAME simulation object shown again after another program was loaded (tables requested before the load):
+            # the tables must show the new contents
+            import rvasmgen
+            t2 = rng.choice([".data\nq: .word 11, 22, 33\n.text\nlw x5, q[1]\nsw x5, q[2], x6", "addi x1, x0, 3", ".data\nb: .byte 1, 2, 3, 4, 5\nh: .half 513\n.text\nnop",
+                             "this does not assemble", ""])
+            c.lines += [f"sim.load {rvasmgen.hx(t2)}", "sim.arch", "sim.regtable", "sim.memtable"]
+            if rng.random() < 0.5:
+                c.lines += ["sim.step", "sim.step", "sim.step", "sim.arch", "sim.regtable", "sim.memtable"]
         yield c
     # the instruction listing with its stage column (the RISC-V counterpart of the TOY table's cycle mark): after every step of
     # hazard-rich programs (stalls, flushes, ecall drains), both modes, with and without hazard detection
@@ -57,6 +66,12 @@ def table_cases(rng, tier):
     for i in range(n):
         c = toygen.image_case(rng, toygen.mixed_calls, max_steps=rng.choice([0, 1, 2, 7, 30]), suite="toy-tables")
         c.lines += ["toy.snap", "toy.regtable", "toy.memtable"]
+        if i % 3 == 0:
+            import toyasmgen
+            t2 = rng.choice(["LDA v\nINC\nSTO v\n.data\nv: .word 41", "INC\nINC", ".data\nw: .word 1, 2, 3\n.text\nLDA w", "not a toy program", ""])
+            c.lines += [f"toy.asm {toyasmgen.hx(t2)}", "toy.snap", "toy.regtable", "toy.memtable"]
+            if rng.random() < 0.5:
+                c.lines += ["toy.call step", "toy.call first", "toy.snap", "toy.regtable", "toy.memtable"]
         yield c
 
 
